@@ -39,6 +39,7 @@ type scriptFile struct {
 	ended          bool
 	sentErr        bool        // the sentinel was actually returned by a Read
 	delivered      int         // bytes delivered so far
+	readEnds       []int       // cumulative bytes delivered after each data-carrying read
 	onRead         func(k int) // optional hook, called at the start of Read number k (0-based) without the lock
 	onClose        func()
 }
@@ -85,6 +86,12 @@ func (f *scriptFile) Read(p []byte) (int, error) {
 		f.sentErr = true
 		return 0, errSentinel
 	}
+	if st.Err == "eofnow" {
+		// the input ends here, whatever was left
+		f.ended = true
+		f.data = nil
+		return 0, io.EOF
+	}
 	if len(f.data) == 0 {
 		f.ended = true
 		return 0, io.EOF
@@ -101,6 +108,7 @@ func (f *scriptFile) Read(p []byte) (int, error) {
 	f.delivered += n
 	if n > 0 {
 		f.dataReads++
+		f.readEnds = append(f.readEnds, f.delivered)
 	}
 	if len(f.data) == 0 && st.Err == "eof" && n > 0 {
 		// EOF delivered together with the last data; a following read gives (0, EOF)
